@@ -341,7 +341,7 @@ def run_rewrite(srcdir, argv):
         rc, exc = 99, type(e).__name__ + ': ' + str(e)[:200]
     finally:
         mlog.set_verbose()
-    return rc, out.getvalue(), exc or err.getvalue()[-400:]
+    return rc, out.getvalue(), exc or err.getvalue()[-1500:]
 
 
 def read_tree(d):
